@@ -19,6 +19,10 @@ import (
 // behaves as one register per variable, for every history.
 
 type vsCfg struct {
+	// Faulty: the byte store underneath the in-memory store fails now and then (faults list of the trace). A write
+	// that reports an error leaves its variable indeterminate until the next acknowledged write; every acknowledged
+	// write is read back exactly; a read may fail while a fault fires, it never returns another value.
+	Faulty  bool       `json:"faulty_backing,omitempty"`
 	Instant string     `json:"instant"`
 	Prepop  []vsPrepop `json:"prepopulated,omitempty"`
 	Vars    []VarSpec  `json:"vars"`
@@ -173,8 +177,15 @@ func (e *varstoreEngine) Gen(seed uint64, tier string, run int) *Trace {
 			}
 		}
 	}
+	var faults []Fault
+	if fr := r.Fork("faults"); fr.Chance(1, 5) {
+		c.Faulty = true
+		for n := fr.Range(1, 4); n > 0; n-- {
+			faults = append(faults, Fault{Pos: fr.Intn(5*nops + 3), Kind: Pick(fr, []string{"err", "partial_err", "short_nil", "err_full", "err"}), Arg: Pick(fr, []int{1, 2, 3, 4, 5, 17, 40})})
+		}
+	}
 	return &Trace{Property: "C12", Engine: "varstore", Seed: seed, Run: run, Tier: tier,
-		Cfg: mustJSON(c), Ops: rawList(ops), Faults: []json.RawMessage{}, Schedule: []json.RawMessage{}}
+		Cfg: mustJSON(c), Ops: rawList(ops), Faults: rawList(faults), Schedule: []json.RawMessage{}}
 }
 
 // ---- porcupine register model (second implementation of the oracle) ----
@@ -240,7 +251,11 @@ func (e *varstoreEngine) Exec(tr *Trace, x *X) {
 	}
 	x.Sim(at.Unix())
 	var hist []porcupine.Operation
-	if pv := inBubble(x.T, at, "", func() { hist = vsExec(c, ops, x) }); pv != nil {
+	faults, err := unrawList[Fault](tr.Faults)
+	if err != nil {
+		harnessf("varstore faults: %v", err)
+	}
+	if pv := inBubble(x.T, at, "", func() { hist = vsExec(c, ops, faults, x) }); pv != nil {
 		panic(pv)
 	}
 	// the recorded history, checked a second time by porcupine (outside the
@@ -257,7 +272,7 @@ func (e *varstoreEngine) Exec(tr *Trace, x *X) {
 	}
 }
 
-func vsExec(c vsCfg, ops []vsOp, x *X) (hist []porcupine.Operation) {
+func vsExec(c vsCfg, ops []vsOp, faults []Fault, x *X) (hist []porcupine.Operation) {
 	if attributes.Efivars != "/sys/firmware/efi/efivars" {
 		harnessf("attributes.Efivars was left at %q", attributes.Efivars)
 	}
@@ -279,6 +294,30 @@ func vsExec(c vsCfg, ops []vsOp, x *X) (hist []porcupine.Operation) {
 		x.Logf("prepopulated %s = %s", c.Vars[p.Var].String(), shortHex(val))
 	}
 	api := tfs.Open()
+	// the faulty device: the same byte store the in-memory store composed, seen through the fault plane
+	var plane *Plane
+	wrap := func() {
+		if !c.Faulty || len(faults) == 0 {
+			return
+		}
+		inner := testfsBacking(tfs)
+		if inner == nil {
+			x.Probe("faulty_backing_unavailable") // the store keeps its byte store somewhere this harness does not know: fault-free run
+			return
+		}
+		if plane == nil {
+			plane = NewPlane(x)
+			plane.Arm(faults)
+		}
+		tfs.SetFS(NewSimFs(inner, plane, nil))
+	}
+	wrap()
+	fired := func() int {
+		if plane == nil {
+			return 0
+		}
+		return len(plane.Fired)
+	}
 	objs := map[string]vsObj{}
 	var shared signature.SignatureDatabase // one destination object reused by every GetVarInto of the run
 	prepop := map[int][]byte{}
@@ -301,6 +340,7 @@ func vsExec(c vsCfg, ops []vsOp, x *X) (hist []porcupine.Operation) {
 		call := seq
 		seq++
 		var pv any
+		fired0 := fired()
 		switch op.Op {
 		case "WriteVar", "WriteSignedUpdate", "WriteBlob":
 			val := op.Val.Bytes()
@@ -369,9 +409,22 @@ func vsExec(c vsCfg, ops []vsOp, x *X) (hist []porcupine.Operation) {
 				vsPanic(x, i, op.Op, pv)
 				return hist
 			}
+			if werr != nil && fired() > fired0 {
+				// the device failed inside this write and the store said so: the variable is indeterminate until the next acknowledged write
+				delete(model, op.Var)
+				has[op.Var] = false
+				writes[op.Var] = 0
+				x.Probe("write_failed_under_fault")
+				hist = append(hist, porcupine.Operation{ClientId: 0, Input: regIn{Unset: true, Var: op.Var}, Call: call, Output: regOut{}, Return: seq})
+				seq++
+				continue
+			}
 			if werr != nil {
 				x.Fail("register.write_succeeds", i, op.Op, "write of %d bytes to %s failed: %v", len(val), vs.String(), werr)
 				return hist
+			}
+			if fired() > fired0 {
+				x.Probe("write_acknowledged_although_a_fault_fired")
 			}
 			model[op.Var], has[op.Var] = expect, true
 			writes[op.Var]++
@@ -383,6 +436,7 @@ func vsExec(c vsCfg, ops []vsOp, x *X) (hist []porcupine.Operation) {
 		case "Reopen":
 			// TestFS.Open() composes the store afresh from the files given to With(): everything written since is gone
 			api = tfs.Open()
+			wrap()
 			for k := range model {
 				delete(model, k)
 				delete(has, k)
@@ -448,6 +502,10 @@ func vsExec(c vsCfg, ops []vsOp, x *X) (hist []porcupine.Operation) {
 			if pv != nil {
 				vsPanic(x, i, op.Op, pv)
 				return hist
+			}
+			if rerr != nil && fired() > fired0 {
+				x.Probe("read_failed_under_fault") // allowed: the device failed inside this read and the store said so
+				continue
 			}
 			out := regOut{Ok: rerr == nil, Val: string(got)}
 			hist = append(hist, porcupine.Operation{ClientId: 0, Input: regIn{Var: op.Var}, Call: call, Output: out, Return: seq})
